@@ -108,3 +108,126 @@ def c11(tier, seed, replay_path=None):
 
 
 CHECKS["C11"] = c11
+
+
+# ---------------------------------------------------------------------------------------------------
+# C15: concurrent ingestion / reads: valid views, serial outcome, no data race
+
+def _validate_conc(trace, tag):
+    d = c.sub("trace")
+    cfg = os.path.join(d, "conc_%s.cfg" % tag)
+    consts = {"MaxN": 100000, "Works": c.tla_set((0, 1, 2, 4)), "SharedRoots": "TRUE", "MaxFuture": 100000, "MaxForb": 100000, "Deviations": "{}"}
+    c.write_cfg(cfg, "TraceSpec", consts, [], (), extra=["POSTCONDITION TraceAccepted"])
+    dst = os.path.join(d, tag)
+    os.makedirs(dst, exist_ok=True)
+    f = os.path.join(dst, "conc_trace.ndjson")
+    os.replace(trace, f)
+    res = c.run_tlc("Trace_Conc", cfg, workers=1, timeout=3000, extra_files=[f])
+    lines = open(f).read().splitlines()
+    if res.ok:
+        return res, None, len(lines)
+    if "TraceAccepted" in res.out or "ostcondition" in res.out:
+        upto = max(0, res.distinct - 1)
+        start = upto
+        while start > 0 and '"ev":"scenario"' not in lines[start]:
+            start -= 1
+        bad = lines[upto] if upto < len(lines) else "?"
+        return res, ("recorded concurrent execution rejected by Trace_Conc.tla at event %d of %d: %s" % (upto + 1, len(lines), bad[:500]),
+                     {"family": "conc-trace", "scenario_events": lines[start:upto + 1]}), len(lines)
+    raise c.Infra("trace validation TLC failure:\n" + res.out[-2500:])
+
+
+def c15(tier, seed, replay_path=None):
+    binary = fc.build()
+    if replay_path:
+        raise c.Infra("C15 violations are recorded traces; re-run the check with the same VERIF_SEED to reproduce (replay file holds the rejected events)")
+    runs, viol, notes = [], [], []
+    # 1. design: every interleaving at repository-call grain, serialised Adds (the mutex of the D13 fix), one reader
+    n = 3 if tier == "quick" else 4
+    INV = ["LValid", "NeverTwoLongestAtOneHeight", "ReaderSeesValidTip", "SerialOutcome", "AckedNeverLost"]
+    runs.append(fs.tlc_props(fs.steps_consts(n, Procs=(1, 2), Readers=(9,), AddMutex=True, MaxFuture=1), INV, ["ImmutableS"], coverage=(tier == "thorough")))
+    if tier == "thorough":
+        runs.append(fs.tlc_props(fs.steps_consts(3, Procs=(1, 2, 3), Readers=(9,), AddMutex=True, MaxFuture=0), INV))
+    # the model must be able to SEE the defect the mutex prevents: without it TLC has to find two longest headers at one height
+    r0 = fs.tlc_props(fs.steps_consts(3, Procs=(1, 2), Readers=(), AddMutex=False), ["LValid"], must_pass=False)
+    if r0.ok or not r0.violation:
+        raise c.Infra("model sensitivity lost: ChainSteps without the Add mutex no longer violates LValid")
+    # 2. conformance B: real goroutines under the harness scheduler, recorded and validated by TLC
+    nsc = 40 if tier == "quick" else 600
+    shards = 6 if tier == "quick" else 16
+    procs = []
+    import subprocess
+    env = c.go_env()
+    for i in range(shards):
+        d = c.sub("conc%02d" % i)
+        e = dict(env)
+        e.update({"VERIF_OP": "conc", "VERIF_OUT": os.path.join(d, "t.ndjson"), "VERIF_DB": os.path.join(d, "c.db"),
+                  "VERIF_SEED": str(seed * 1000 + i), "VERIF_SCENARIOS": str(nsc)})
+        procs.append((d, subprocess.Popen([binary, "-test.run", "^TestHarness$", "-test.timeout", "0"], env=e, cwd=d, stdout=subprocess.PIPE, stderr=subprocess.PIPE, text=True)))
+    stats = {}
+    traces = []
+    import time as _t
+    _t0 = _t.time()
+    for d, pr in procs:
+        so, se = pr.communicate(timeout=3000)
+        if pr.returncode != 0:
+            raise c.Infra("conc harness failed: %s" % se[-2000:])
+        for k, v in json.load(open(os.path.join(d, "t.ndjson.stats"))).items():
+            stats[k] = stats.get(k, 0) + v
+        traces.append(os.path.join(d, "t.ndjson"))
+    c.log("  conc harness: %d shards x %d scenarios %.1fs" % (shards, nsc, _t.time() - _t0))
+    _t0 = _t.time()
+    events = 0
+    samples = []
+    import concurrent.futures
+    def one(i_tr):
+        i, tr = i_tr
+        return _validate_conc(tr, "s%02d" % i)
+    with concurrent.futures.ThreadPoolExecutor(max_workers=8) as ex:
+        for res, v, nl in ex.map(one, list(enumerate(traces))):
+            runs.append(res)
+            events += nl
+            if v:
+                viol.append(v)
+    c.log("  trace validation: %d events %.1fs" % (events, _t.time() - _t0))
+    _t0 = _t.time()
+    d0 = os.path.join(c.sub("trace"), "s00", "conc_trace.ndjson")
+    samples = [json.loads(x) for x in open(d0).read().splitlines()[:8]]
+    # 3. race detector: the same scenarios free-running (no scheduler) plus HTTP readers, built with -race
+    rb = c.build_harness(race=True, **fc.HARNESS)
+    rd = c.sub("race")
+    p = c.run_harness(rb, {"VERIF_OP": "conc", "VERIF_OUT": os.path.join(rd, "r.ndjson"), "VERIF_DB": os.path.join(rd, "r.db"), "VERIF_SEED": seed,
+                           "VERIF_SCENARIOS": 150 if tier == "quick" else 3000, "VERIF_FREE": "1", "GORACE": "halt_on_error=0"}, cwd=rd, timeout=3000)
+    c.log("  race build+run: %.1fs" % (_t.time() - _t0))
+    races = p.stderr.count("WARNING: DATA RACE")
+    if races:
+        i = p.stderr.index("WARNING: DATA RACE")
+        viol.append(("race detector: %d data race report(s) in free-running concurrent ingestion/reads" % races,
+                     {"family": "race", "report": p.stderr[i:i + 3000]}))
+    elif p.returncode != 0:
+        if "panic:" in p.stderr or "fatal error" in p.stderr:
+            viol.append(("process crashed under free-running concurrent ingestion/reads", {"family": "race", "report": p.stderr[-3000:]}))
+        else:
+            raise c.Infra("race run failed: %s" % p.stderr[-2000:])
+    else:
+        res, v, nl = _validate_conc(os.path.join(rd, "r.ndjson"), "race")
+        runs.append(res)
+        events += nl
+        if v:
+            viol.append(v)
+    if stats.get("reads", 0) == 0 or stats.get("concurrent-headers", 0) == 0:
+        raise c.Infra("vacuous run: %s" % stats)
+    cov = {"states": sum(r.distinct for r in runs), "transitions": sum(r.generated for r in runs),
+           "traces_validated_against_impl": stats.get("scenarios", 0) + (150 if tier == "quick" else 3000),
+           "recorded_events_validated": events, "scheduler_stats": stats, "samples": samples,
+           "model_sensitivity": "ChainSteps with AddMutex=FALSE violates LValid (TLC counter-example found, %d states)" % r0.distinct,
+           "race_detector_reports": races,
+           "rule": "2-3 submitter goroutines (competing children of the tip, forks, children of headers another goroutine is adding) and 1-2 reader goroutines over the real SQL "
+                   "stack; repository calls are granted one at a time in a seeded random order by the harness scheduler; every snapshot after a write and at every read, and the "
+                   "final store, are validated by TLC against Trace_Conc.tla (StructValid snapshots, reader tip = top, final = Chain.AddRow folded in SOME order)"}
+    return {"violations": viol, "known": [], "notes": notes, "level": "model_checking", "coverage": cov,
+            "assumptions": ASSUME + ["schedules explored on the real code are seeded random ones at repository-call granularity; the exhaustive enumeration is on ChainSteps.tla",
+                                     "peer connect/disconnect traffic and the shared peers map are exercised by the P2P rig (C06), not here"]}
+
+
+CHECKS["C15"] = c15
